@@ -541,10 +541,14 @@ def check_last_component(ctx: Ctx, f: FuncInfo, target_tpl: str) -> None:
         ctx.violation("C19-V1", f, lp, f"{f.name}: loop step `{'; '.join(body)}` does not extend the suffix by the next entry from the right")
         return
     rets = [st for st in f.body if isinstance(st, ast.Return)]
-    if len(rets) == 1 and unparse(rets[0].value) == f"Perm.to_standard({p}[{n} - {i}:{n}])":
+    # slices are read in their canonical spelling (sa/canon.py: x[a:len(x)] = x[a:])
+    wants = [f"Perm.to_standard({p}[{n} - {i}:])", f"Perm.to_standard({p}[-{i}:])", f"Perm.to_standard({p}[len({p}) - {i}:])"]
+    if len(rets) == 1 and unparse(rets[0].value) in wants:
         ctx.ok("C19-V1", f.where, f"{f.name}: shortest suffix with value set {target_tpl.format(n=n, i=i)}, standardised", lp, f)
+    elif len(rets) == 1:
+        deviates(ctx, "C19-V1", f, rets[0], unparse(rets[0].value), wants, f"{f.name} does not return the standardised suffix of length {i}")
     else:
-        ctx.violation("C19-V1", f, rets[0] if rets else f.node, f"{f.name} does not return the standardised suffix of length {i}")
+        raise AnalysisError(f"{f.where}: several returns; what is returned after the loop is not recognised")
 
 
 _OLD_RUN = run
